@@ -81,20 +81,21 @@ def run_huge_call(shard: dict, ctx) -> None:
     out = bytearray(b"\x7e")
     sent = []
     pool = []
-    for _ in range(40):  # forty distinct frames, most of them large, repeated with fresh sequence ids in the control field
+    for k in range(40):  # forty distinct frames, half of them large and half of them tiny (so that the call carries well over 65 536 frames)
         while True:
-            fr, d = hdlc_gen.good_frame(rng, ids, max_info=rng.choice((None, None, 300)), want_info=True)
+            fr, d = hdlc_gen.good_frame(rng, ids, max_info=rng.choice((None, None, 300)) if k % 2 else rng.choice((6, 8, 12)), want_info=True)
             if cfg[0] or hdlc_gen.in_plain_domain(fr, cfg[1]):
                 break
         pool.append((fr, d, hdlc_gen.on_wire(fr, cfg[0])))
     while len(out) < shard["octets"]:
-        fr, d, wire = pool[rng.randrange(len(pool))]
+        fr, d, wire = pool[rng.randrange(len(pool)) if len(sent) % 9 == 0 else 2 * rng.randrange(len(pool) // 2)]
         sent.append((fr, d))
         out += wire + b"\x7e" * rng.choice((1, 1, 2))
     stream = bytes(out)
     compare(cfg, stream, ("none",), sent, ctx)
     ctx.case(b"huge" + bytes(cfg) + len(stream).to_bytes(5, "big"), True)
     ctx.count("single_read_calls_of_more_than_4_MiB")
+    ctx.maximum("most_frames_completed_by_one_read_call", len(sent))
     ctx.maximum("largest_single_read_call_octets", len(stream))
 
 
@@ -123,6 +124,13 @@ def make_stream(rng, cfg, ctx=None, max_frames: int = 8, small: bool = False):
         sent.append((fr, d))
         out += hdlc_gen.on_wire(fr, stuffing)
         out += bytes([0x7E]) * rng.choice((1, 1, 1, 2, 3)) if rng.random() < 0.7 or small else hdlc_gen.fill(rng)
+        if rng.random() < 0.12:
+            # a meter whose readings do not change sends the very same octets again (1..3 times)
+            for _ in range(rng.choice((1, 1, 2, 3))):
+                sent.append((fr, d))
+                out += hdlc_gen.on_wire(fr, stuffing) + b"\x7e" * rng.choice((1, 1, 2))
+            if ctx is not None:
+                ctx.count("frames_repeated_identically")
         if not small and rng.random() < 0.1:
             # ... or is a different frame of the same length that a 32-bit digest of the octets cannot tell from this one
             tw = hdlc_gen.digest_twin(rng, d)
